@@ -1,9 +1,821 @@
-//! C10: not built yet.
-use crate::out::Out;
-use serde_json::Value;
+//! C10: optimising normalisation preserves behaviour.
+//!
+//! Generates small functions, runs the REAL `normalize_basic` and then the real optimisation passes of
+//! `Project::normalize_optimize` one after the other (and the whole `normalize_optimize`), and records
+//! one case per pass that changed the function: the function before (p1) and after (p2), the IR
+//! environment and six initial register files.  TLC (spec/EquivMonitor.tla via spec/trace/T_C10.tla)
+//! runs both functions in the IR reference semantics and decides.  Nothing here decides anything: the
+//! `f_*` fields are syntactic feature tags used only to key known findings, `nontrivial` is counted.
+use crate::enc::*;
+use crate::irenc;
+use crate::irenc::mk_tid;
+use crate::exprgen::*;
+use crate::out::{catch, Out};
+use crate::rng::Rng;
+use cwe_checker_lib::analysis;
+use cwe_checker_lib::intermediate_representation::*;
+use serde_json::{json, Value};
 
-pub fn gen(_out: &mut Out, _sub: &str) {}
+pub const PASSES: [&str; 5] =
+    ["expression_propagation", "trivial_substitution", "dead_variable_elimination", "control_flow", "stack_alignment"];
 
-pub fn replay(_run: &[Value], _sub: &str) -> Vec<Value> {
-    Vec::new()
+/// Apply one pass of `Project::normalize_optimize` (in its order) to the project.
+pub fn apply_pass(p: &mut Project, pass: &str) {
+    match pass {
+        "expression_propagation" => analysis::expression_propagation::propagate_input_expression(p),
+        "trivial_substitution" => p.substitute_trivial_expressions(),
+        "dead_variable_elimination" => analysis::dead_variable_elimination::remove_dead_var_assignments(p),
+        "control_flow" => propagate_control_flow::propagate_control_flow(p),
+        "stack_alignment" => {
+            let _ = analysis::stack_alignment_substitution::substitute_and_on_stackpointer(p);
+        }
+        "full" => {
+            let _ = p.normalize_optimize();
+        }
+        _ => panic!("unknown pass"),
+    }
+}
+
+// ------------------------------------------------------------------------------------------------
+// function generator
+// ------------------------------------------------------------------------------------------------
+const FN_ADDR: u64 = 0x1000;
+const HELPER_RET: &str = "sub_9000"; // internal callee with a Return
+const HELPER_NORET: &str = "sub_9100"; // internal callee without a Return (non-returning)
+const EXT_FN: &str = "sub_a000"; // extern symbol that returns
+const EXT_EXIT: &str = "sub_a100"; // extern symbol marked no_return
+
+fn blk_addr(i: usize) -> String {
+    format!("{:x}", FN_ADDR + 0x10 * i as u64)
+}
+fn blk_tid(i: usize) -> Tid {
+    mk_tid(&format!("blk_{}", blk_addr(i)), &blk_addr(i))
+}
+fn def_tid(b: usize, n: usize) -> Tid {
+    mk_tid(&format!("instr_{}_{}", blk_addr(b), n), &blk_addr(b))
+}
+
+#[derive(Clone, Copy, PartialEq, Eq, Debug)]
+enum Mode {
+    General,
+    Chain,    // conditional chains re-testing shared conditions, empty conditional blocks
+    Forward,  // many empty forwarding blocks, cycles of them, back edges to the entry block
+    Prologue, // SP = SP -+ c ; SP = SP & -2^k prologue
+    Memory,   // loads / stores, registers re-assigned by loads
+}
+
+struct FnGen<'a> {
+    rng: &'a mut Rng,
+    mode: Mode,
+    nblocks: usize,
+    /// index of the first block that may be a jump target (> 0 iff there is a prologue)
+    first_target: usize,
+    chain_conds: Vec<Expression>,
+}
+
+fn eg<'b>(rng: &'b mut Rng) -> ExprGen<'b> {
+    ExprGen { rng, sp_weight: 4 }
+}
+
+impl<'a> FnGen<'a> {
+    fn target(&mut self, from: usize) -> usize {
+        // forward biased; back edges (loops) with lower probability
+        let lo = self.first_target;
+        let n = self.nblocks;
+        if from + 1 < n && self.rng.chance(7, 10) {
+            (from + 1 + self.rng.below((n - from - 1).min(3) as u64) as usize).max(lo)
+        } else {
+            lo + self.rng.below((n - lo) as u64) as usize
+        }
+    }
+    fn cond(&mut self, ctx: &Ctx) -> Expression {
+        if !self.chain_conds.is_empty() && self.rng.chance(if self.mode == Mode::Chain { 5 } else { 2 }, 6) {
+            let c = self.rng.pick(&self.chain_conds).clone();
+            if self.rng.chance(1, 3) {
+                // the negated condition, as `negate_condition` would build it
+                if let Expression::UnOp { op: UnOpType::BoolNegate, arg } = c {
+                    *arg
+                } else {
+                    un(UnOpType::BoolNegate, c)
+                }
+            } else {
+                c
+            }
+        } else {
+            let d = 1 + self.rng.below(2) as u32;
+            eg(self.rng).expr(Ty::Bool, d, ctx)
+        }
+    }
+    fn addr_expr(&mut self, ctx: &Ctx) -> Expression {
+        use BinOpType::*;
+        match self.rng.below(10) {
+            0..=4 => {
+                let off = 8 * self.rng.range(-6, 6);
+                if off == 0 {
+                    var(&sp_var())
+                } else if off < 0 && self.rng.chance(1, 2) {
+                    bin(IntSub, var(&sp_var()), cst(-off, 8))
+                } else {
+                    bin(IntAdd, var(&sp_var()), cst(off, 8))
+                }
+            }
+            5 | 6 => {
+                let r = reg(*self.rng.pick(&GPRS), 8);
+                let off = self.rng.range(-16, 16);
+                bin(IntAdd, var(&r), cst(off, 8))
+            }
+            7 => var(&reg(*self.rng.pick(&GPRS), 8)),
+            8 => cst(0x60_0000 + 8 * self.rng.below(4) as i64, 8),
+            _ => eg(self.rng).expr(Ty::Int(8), 2, ctx),
+        }
+    }
+    fn dest(&mut self, ty: Ty, ctx: &mut Ctx) -> Variable {
+        match ty {
+            Ty::Bool => {
+                if self.rng.chance(2, 3) {
+                    reg(*self.rng.pick(&FLAGS), 1)
+                } else {
+                    ctx.fresh(ty)
+                }
+            }
+            Ty::Int(8) => {
+                if self.rng.chance(3, 4) {
+                    reg(*self.rng.pick(&GPRS), 8)
+                } else {
+                    ctx.fresh(ty)
+                }
+            }
+            _ => ctx.fresh(ty),
+        }
+    }
+    fn push_def(&mut self, defs: &mut Vec<Term<Def>>, b: usize, d: Def) {
+        let n = defs.len();
+        defs.push(Term { tid: def_tid(b, n), term: d });
+    }
+    fn gen_defs(&mut self, b: usize, n: usize, defs: &mut Vec<Term<Def>>, ctx: &mut Ctx) {
+        use BinOpType::*;
+        let mem_w = if self.mode == Mode::Memory { 45 } else { 25 };
+        for _ in 0..n {
+            let roll = self.rng.below(100);
+            if roll < mem_w / 2 {
+                // load
+                let size = *self.rng.pick(&[8, 8, 8, 4, 2, 1]);
+                let a = self.addr_expr(ctx);
+                let v = if size == 8 { self.dest(Ty::Int(8), ctx) } else { ctx.fresh(Ty::Int(size)) };
+                self.push_def(defs, b, Def::Load { var: v.clone(), address: a });
+                if v.is_temp {
+                    ctx.define(&v, Ty::Int(size));
+                }
+            } else if roll < mem_w {
+                // store
+                let size = *self.rng.pick(&[8, 8, 8, 4, 2, 1]);
+                let a = self.addr_expr(ctx);
+                let d = self.rng.below(3) as u32;
+                let e = eg(self.rng).expr(Ty::Int(size), d, ctx);
+                self.push_def(defs, b, Def::Store { address: a, value: e });
+            } else if roll < mem_w + 8 {
+                // two-step idiom through a temporary:  $U := x - y ; flag := $U ==/!= c
+                let s = *self.rng.pick(&[8, 8, 4, 1]);
+                let x = eg(self.rng).expr(Ty::Int(s), 1, ctx);
+                let y = eg(self.rng).expr(Ty::Int(s), 1, ctx);
+                let t = ctx.fresh(Ty::Int(s));
+                self.push_def(defs, b, Def::Assign { var: t.clone(), value: bin(IntSub, x.clone(), y.clone()) });
+                ctx.define(&t, Ty::Int(s));
+                let f = reg(*self.rng.pick(&FLAGS), 1);
+                if self.rng.chance(1, 2) {
+                    let c = cst(*self.rng.pick(&[0, 1, 1, 2]), s);
+                    let op = if self.rng.chance(1, 2) { IntEqual } else { IntNotEqual };
+                    self.push_def(defs, b, Def::Assign { var: f, value: bin(op, var(&t), c) });
+                } else {
+                    // borrow idiom: OF := x sborrow y ; SF := $U s< 0 ; flag := OF != SF
+                    let (of, sf) = (reg("OF", 1), reg("SF", 1));
+                    self.push_def(defs, b, Def::Assign { var: of.clone(), value: bin(IntSBorrow, x, y) });
+                    self.push_def(defs, b, Def::Assign { var: sf.clone(), value: bin(IntSLess, var(&t), cst(0, s)) });
+                    let op = if self.rng.chance(1, 2) { IntNotEqual } else { IntEqual };
+                    let t2 = ctx.fresh(Ty::Bool);
+                    self.push_def(defs, b, Def::Assign { var: t2.clone(), value: bin(op, var(&of), var(&sf)) });
+                    ctx.define(&t2, Ty::Bool);
+                }
+            } else {
+                // plain assignment
+                let ty = match self.rng.below(10) {
+                    0..=4 => Ty::Int(8),
+                    5..=7 => Ty::Bool,
+                    8 => Ty::Int(4),
+                    _ => Ty::Int(*self.rng.pick(&[1, 2])),
+                };
+                let d = 1 + self.rng.below(3) as u32;
+                let e = eg(self.rng).expr(ty, d, ctx);
+                let v = self.dest(ty, ctx);
+                self.push_def(defs, b, Def::Assign { var: v.clone(), value: e });
+                if v.is_temp {
+                    ctx.define(&v, ty);
+                }
+            }
+        }
+    }
+    fn prologue(&mut self, b: usize, defs: &mut Vec<Term<Def>>) {
+        use BinOpType::*;
+        let sp = sp_var();
+        // push rbp ; mov rbp, rsp ; sub rsp, c ; and rsp, -2^k     (each part optional)
+        if self.rng.chance(2, 3) {
+            self.push_def(defs, b, Def::Assign { var: sp.clone(), value: bin(IntSub, var(&sp), cst(8, 8)) });
+            self.push_def(defs, b, Def::Store { address: var(&sp), value: var(&reg("RBP", 8)) });
+            if self.rng.chance(1, 2) {
+                self.push_def(defs, b, Def::Assign { var: reg("RBP", 8), value: var(&sp) });
+            }
+        }
+        if self.rng.chance(2, 3) {
+            let c = *self.rng.pick(&[8i64, 16, 24, 40, 100, 4, 0x1008]);
+            let e = match self.rng.below(4) {
+                0 => bin(IntAdd, var(&sp), cst(-c, 8)),
+                1 => bin(IntAdd, cst(-c, 8), var(&sp)),
+                2 => bin(IntAdd, var(&sp), cst(c, 8)),
+                _ => bin(IntSub, var(&sp), cst(c, 8)),
+            };
+            self.push_def(defs, b, Def::Assign { var: sp.clone(), value: e });
+        }
+        if self.rng.chance(3, 4) {
+            // as a real `sub` would: a flag computation between the SP adjustment and the mask
+            // (consecutive assignments to SP would be merged into one expression by the optimiser)
+            self.push_def(defs, b, Def::Assign { var: reg("ZF", 1), value: bin(IntEqual, var(&sp), cst(0, 8)) });
+        }
+        let k = *self.rng.pick(&[3u32, 4, 4, 4, 5, 6, 8, 12]);
+        let mask = cst(-(1i64 << k), 8);
+        let e = if self.rng.chance(3, 4) { bin(IntAnd, var(&sp), mask) } else { bin(IntAnd, mask, var(&sp)) };
+        self.push_def(defs, b, Def::Assign { var: sp.clone(), value: e });
+        if self.rng.chance(1, 2) {
+            let c = *self.rng.pick(&[16i64, 32, 8]);
+            self.push_def(defs, b, Def::Assign { var: sp.clone(), value: bin(IntSub, var(&sp), cst(c, 8)) });
+        }
+    }
+    fn gen_jmps(&mut self, b: usize, last: bool, defs: &mut Vec<Term<Def>>, ctx: &mut Ctx, ind: &mut Vec<Tid>) -> Vec<Term<Jmp>> {
+        let jt = |n: usize| mk_tid(&format!("instr_{}_j{}", blk_addr(b), n), &blk_addr(b));
+        let roll = if last { 80 + self.rng.below(20) } else { self.rng.below(100) };
+        let uncond = |s: &mut Self, n: usize| -> Term<Jmp> {
+            let t = s.target(b);
+            Term { tid: jt(n), term: Jmp::Branch(blk_tid(t)) }
+        };
+        match roll {
+            0..=34 => vec![uncond(self, 0)],
+            35..=64 => {
+                let c = self.cond(ctx);
+                let t = self.target(b);
+                vec![Term { tid: jt(0), term: Jmp::CBranch { target: blk_tid(t), condition: c } }, uncond(self, 1)]
+            }
+            65..=76 => {
+                // calls
+                let ret = if self.rng.chance(1, 12) { None } else { Some(blk_tid(self.target(b))) };
+                let call = match self.rng.below(10) {
+                    0..=3 => Jmp::Call { target: mk_tid(EXT_FN, "a000"), return_: ret },
+                    4 => Jmp::Call { target: mk_tid(EXT_EXIT, "a100"), return_: ret },
+                    5 | 6 => Jmp::Call { target: mk_tid(HELPER_RET, "9000"), return_: ret },
+                    7 => Jmp::Call { target: mk_tid(HELPER_NORET, "9100"), return_: ret },
+                    8 => {
+                        let e = eg(self.rng).expr(Ty::Int(8), 1, ctx);
+                        Jmp::CallInd { target: e, return_: ret }
+                    }
+                    _ => Jmp::CallOther { description: "syscall".to_string(), return_: ret },
+                };
+                vec![Term { tid: jt(0), term: call }]
+            }
+            77..=81 => {
+                // indirect jump; sometimes through a register that selects one of two known targets
+                let t1 = self.target(b);
+                let e = match self.rng.below(3) {
+                    0 => eg(self.rng).expr(Ty::Int(8), 1, ctx),
+                    1 => cst((FN_ADDR + 0x10 * t1 as u64) as i64, 8),
+                    _ => {
+                        let f = reg(*self.rng.pick(&FLAGS), 1);
+                        let r = reg(*self.rng.pick(&GPRS), 8);
+                        let sel = bin(
+                            BinOpType::IntAdd,
+                            bin(BinOpType::IntMult, cast(CastOpType::IntZExt, 8, var(&f)), cst(0x10, 8)),
+                            cst((FN_ADDR + 0x10 * t1 as u64) as i64, 8),
+                        );
+                        self.push_def(defs, b, Def::Assign { var: r.clone(), value: sel });
+                        var(&r)
+                    }
+                };
+                if self.rng.chance(4, 5) {
+                    ind.push(blk_tid(t1));
+                    if t1 + 1 < self.nblocks && self.rng.chance(2, 3) {
+                        ind.push(blk_tid(t1 + 1));
+                    }
+                }
+                vec![Term { tid: jt(0), term: Jmp::BranchInd(e) }]
+            }
+            82..=83 => vec![], // dead end
+            _ => {
+                // return
+                let e = match self.rng.below(10) {
+                    0..=5 => var(&reg(*self.rng.pick(&GPRS), 8)),
+                    6 => cst(0x4000, 8),
+                    _ => {
+                        // ret: $U := [RSP] ; RSP := RSP + 8 ; return $U
+                        let t = ctx.fresh(Ty::Int(8));
+                        self.push_def(defs, b, Def::Load { var: t.clone(), address: var(&sp_var()) });
+                        self.push_def(defs, b, Def::Assign { var: sp_var(), value: bin(BinOpType::IntAdd, var(&sp_var()), cst(8, 8)) });
+                        var(&t)
+                    }
+                };
+                vec![Term { tid: jt(0), term: Jmp::Return(e) }]
+            }
+        }
+    }
+
+    fn gen_function(&mut self) -> Term<Sub> {
+        self.nblocks = 2 + self.rng.below(if self.mode == Mode::General { 9 } else { 10 }) as usize;
+        let n = self.nblocks;
+        // shared conditions of conditional chains: over flags / registers
+        let nc = 1 + self.rng.below(2);
+        self.chain_conds = (0..nc)
+            .map(|_| {
+                let ctx = Ctx::default();
+                match self.rng.below(5) {
+                    0 | 1 => var(&reg(*self.rng.pick(&FLAGS), 1)),
+                    2 => un(UnOpType::BoolNegate, var(&reg(*self.rng.pick(&FLAGS), 1))),
+                    _ => eg(self.rng).expr(Ty::Bool, 1, &ctx),
+                }
+            })
+            .collect();
+        // prologue layout: optional chain of empty forwarding blocks, then the block with the SP prologue;
+        // none of them is a jump target
+        let mut prologue_at = None;
+        self.first_target = 0;
+        if self.mode == Mode::Prologue {
+            let fwd = if self.rng.chance(1, 3) { 1 + self.rng.below(2) as usize } else { 0 };
+            let at = fwd.min(n - 2);
+            prologue_at = Some(at);
+            self.first_target = at + 1;
+        }
+        let mut blocks: Vec<Term<Blk>> = Vec::new();
+        for b in 0..n {
+            let mut defs = Vec::new();
+            let mut ctx = Ctx::default();
+            let mut ind = Vec::new();
+            let jmps;
+            if let Some(at) = prologue_at.filter(|at| b <= *at) {
+                if b < at {
+                    jmps = vec![Term { tid: mk_tid(&format!("instr_{}_j0", blk_addr(b)), &blk_addr(b)), term: Jmp::Branch(blk_tid(b + 1)) }];
+                } else {
+                    let pre = self.rng.below(2) as usize;
+                    self.gen_defs(b, pre, &mut defs, &mut ctx);
+                    self.prologue(b, &mut defs);
+                    let post = self.rng.below(3) as usize;
+                    self.gen_defs(b, post, &mut defs, &mut ctx);
+                    jmps = self.gen_jmps(b, false, &mut defs, &mut ctx, &mut ind);
+                }
+            } else {
+                let empty_p = match self.mode {
+                    Mode::Forward => 55,
+                    Mode::Chain => 40,
+                    _ => 18,
+                };
+                let ndefs = if self.rng.below(100) < empty_p { 0 } else { 1 + self.rng.below(6) as usize };
+                self.gen_defs(b, ndefs, &mut defs, &mut ctx);
+                jmps = self.gen_jmps(b, b + 1 == n, &mut defs, &mut ctx, &mut ind);
+            }
+            blocks.push(Term { tid: blk_tid(b), term: Blk { defs, jmps, indirect_jmp_targets: ind } });
+        }
+        // planted pattern "block entered only under condition c, then an empty block re-testing c":
+        //   b0: if c goto b1 else ..   b1: defs (half of the time overwriting an input of c) ; goto b2
+        //   b2: (empty) if c goto g else h
+        if self.mode == Mode::Chain && n >= 4 && self.rng.chance(2, 3) {
+            let c = self.chain_conds[0].clone();
+            let jt = |b: usize, k: usize| mk_tid(&format!("instr_{}_j{}", blk_addr(b), k), &blk_addr(b));
+            let other = 1 + self.rng.below((n - 1) as u64) as usize;
+            let (c0, neg) = if self.rng.chance(1, 3) {
+                (if let Expression::UnOp { op: UnOpType::BoolNegate, arg } = &c { (**arg).clone() } else { un(UnOpType::BoolNegate, c.clone()) }, true)
+            } else {
+                (c.clone(), false)
+            };
+            // b0 reaches b1 on the edge where c holds
+            blocks[0].term.indirect_jmp_targets.clear();
+            blocks[0].term.jmps = if neg {
+                vec![Term { tid: jt(0, 0), term: Jmp::CBranch { target: blk_tid(other), condition: c0 } }, Term { tid: jt(0, 1), term: Jmp::Branch(blk_tid(1)) }]
+            } else {
+                vec![Term { tid: jt(0, 0), term: Jmp::CBranch { target: blk_tid(1), condition: c0 } }, Term { tid: jt(0, 1), term: Jmp::Branch(blk_tid(other)) }]
+            };
+            // no other way into b1
+            for (bi, blk) in blocks.iter_mut().enumerate() {
+                if bi == 0 {
+                    continue;
+                }
+                for j in blk.term.jmps.iter_mut() {
+                    match &mut j.term {
+                        Jmp::Branch(t) | Jmp::CBranch { target: t, .. } if *t == blk_tid(1) => *t = blk_tid(n - 1),
+                        Jmp::Call { return_: Some(t), .. } | Jmp::CallInd { return_: Some(t), .. } | Jmp::CallOther { return_: Some(t), .. } if *t == blk_tid(1) => *t = blk_tid(n - 1),
+                        _ => (),
+                    }
+                }
+                blk.term.indirect_jmp_targets.retain(|t| *t != blk_tid(1));
+            }
+            if self.rng.chance(2, 3) {
+                // overwrite an input of c in b1
+                let inputs: Vec<Variable> = c.input_vars().into_iter().filter(|v| !v.is_temp && **v != sp_var()).cloned().collect();
+                if !inputs.is_empty() {
+                    let v = self.rng.pick(&inputs).clone();
+                    let ctx = Ctx::default();
+                    let ty = if v.size == ByteSize::new(1) { Ty::Bool } else { Ty::Int(u64::from(v.size)) };
+                    let e = eg(self.rng).expr(ty, 2, &ctx);
+                    let k = blocks[1].term.defs.len();
+                    blocks[1].term.defs.push(Term { tid: mk_tid(&format!("instr_{}_q{}", blk_addr(1), k), &blk_addr(1)), term: Def::Assign { var: v, value: e } });
+                }
+            }
+            blocks[1].term.indirect_jmp_targets.clear();
+            blocks[1].term.jmps = vec![Term { tid: jt(1, 0), term: Jmp::Branch(blk_tid(2)) }];
+            let (g, h) = (2 + self.rng.below((n - 2) as u64) as usize, 2 + self.rng.below((n - 2) as u64) as usize);
+            blocks[2].term.defs.clear();
+            blocks[2].term.indirect_jmp_targets.clear();
+            blocks[2].term.jmps = vec![Term { tid: jt(2, 0), term: Jmp::CBranch { target: blk_tid(g.max(3).min(n - 1)), condition: c } }, Term { tid: jt(2, 1), term: Jmp::Branch(blk_tid(h.max(3).min(n - 1))) }];
+        }
+        // planted pattern "empty forwarding entry block that is also the target of a back edge"
+        if self.mode == Mode::Forward && n >= 3 && self.rng.chance(2, 3) {
+            let t = 1 + self.rng.below((n - 1) as u64) as usize;
+            blocks[0].term.defs.clear();
+            blocks[0].term.indirect_jmp_targets.clear();
+            blocks[0].term.jmps = vec![Term { tid: mk_tid(&format!("instr_{}_j0", blk_addr(0)), &blk_addr(0)), term: Jmp::Branch(blk_tid(t)) }];
+            // retarget one direct jump of a later block to the entry block
+            let from = 1 + self.rng.below((n - 1) as u64) as usize;
+            // (two rounds: first only blocks with defs - an empty source block would be bypassed itself)
+            for k in 0..2 * (n - 1) {
+                let b = 1 + (from - 1 + k) % (n - 1);
+                if k < n - 1 && blocks[b].term.defs.is_empty() {
+                    continue;
+                }
+                let mut done = false;
+                for j in blocks[b].term.jmps.iter_mut().rev() {
+                    match &mut j.term {
+                        Jmp::Branch(tgt) | Jmp::CBranch { target: tgt, .. } => {
+                            *tgt = blk_tid(0);
+                            done = true;
+                            break;
+                        }
+                        _ => (),
+                    }
+                }
+                if done {
+                    break;
+                }
+            }
+        }
+        // planted pattern "register re-assigned by a load": x: r := e ; goto x+1 | x+1: r := [a] ; goto x+2 |
+        // x+2: uses r.  (Other jumps may still target these blocks.)
+        let p_plant = if self.mode == Mode::Memory { 70 } else { 12 };
+        if n >= self.first_target + 3 && self.rng.below(100) < p_plant {
+            use BinOpType::*;
+            let x = self.first_target + self.rng.below((n - self.first_target - 2) as u64) as usize;
+            let r = reg(*self.rng.pick(&GPRS), 8);
+            let others: Vec<&str> = GPRS.iter().cloned().filter(|g| *g != r.name).collect();
+            let o = reg(*self.rng.pick(&others), 8);
+            let e = match self.rng.below(3) {
+                0 => var(&o),
+                1 => bin(IntAdd, var(&o), cst(self.rng.range(1, 64), 8)),
+                _ => cst(self.rng.range(0, 1000), 8),
+            };
+            let ctx = Ctx::default();
+            let a = self.addr_expr(&ctx);
+            let k0 = blocks[x].term.defs.len();
+            blocks[x].term.defs.push(Term { tid: mk_tid(&format!("instr_{}_p{}", blk_addr(x), k0), &blk_addr(x)), term: Def::Assign { var: r.clone(), value: e } });
+            blocks[x].term.jmps = vec![Term { tid: mk_tid(&format!("instr_{}_j0", blk_addr(x)), &blk_addr(x)), term: Jmp::Branch(blk_tid(x + 1)) }];
+            blocks[x].term.indirect_jmp_targets.clear();
+            let k1 = blocks[x + 1].term.defs.len();
+            blocks[x + 1].term.defs.push(Term { tid: mk_tid(&format!("instr_{}_p{}", blk_addr(x + 1), k1), &blk_addr(x + 1)), term: Def::Load { var: r.clone(), address: a } });
+            blocks[x + 1].term.jmps = vec![Term { tid: mk_tid(&format!("instr_{}_j0", blk_addr(x + 1)), &blk_addr(x + 1)), term: Jmp::Branch(blk_tid(x + 2)) }];
+            blocks[x + 1].term.indirect_jmp_targets.clear();
+            let use_def = if self.rng.chance(1, 2) {
+                Def::Store { address: bin(IntSub, var(&sp_var()), cst(16, 8)), value: var(&r) }
+            } else {
+                Def::Assign { var: o.clone(), value: bin(IntXOr, var(&r), cst(0x55, 8)) }
+            };
+            blocks[x + 2].term.defs.insert(0, Term { tid: mk_tid(&format!("instr_{}_p", blk_addr(x + 2)), &blk_addr(x + 2)), term: use_def });
+        }
+        Term {
+            tid: mk_tid("sub_1000", "1000"),
+            term: Sub { name: "f".to_string(), blocks, calling_convention: Some("__stdcall".to_string()) },
+        }
+    }
+}
+
+fn helper_sub(tid: &str, addr: &str, returns: bool) -> Term<Sub> {
+    let b = mk_tid(&format!("blk_{}", addr), addr);
+    let j = mk_tid(&format!("instr_{}_j0", addr), addr);
+    let jmp = if returns { Jmp::Return(var(&reg("RBX", 8))) } else { Jmp::Branch(b.clone()) };
+    let def = Term {
+        tid: mk_tid(&format!("instr_{}_0", addr), addr),
+        term: Def::Assign { var: reg("RAX", 8), value: cst(1, 8) },
+    };
+    Term {
+        tid: mk_tid(tid, addr),
+        term: Sub {
+            name: tid.to_string(),
+            blocks: vec![Term { tid: b, term: Blk { defs: vec![def], jmps: vec![Term { tid: j, term: jmp }], indirect_jmp_targets: vec![] } }],
+            calling_convention: None,
+        },
+    }
+}
+
+/// The generated input in a JSON-serialisable form (`Project` itself has maps with struct keys).
+#[derive(serde::Serialize, serde::Deserialize, Clone)]
+pub struct RawProg {
+    pub subs: Vec<Term<Sub>>,
+    pub externs: Vec<ExternSymbol>,
+}
+impl RawProg {
+    pub fn project(&self) -> Project {
+        mk_project(self.subs.clone(), self.externs.clone())
+    }
+}
+
+/// The raw program of function number `idx` (deterministic in (seed, idx)).
+pub fn gen_project(seed: u64, idx: u64) -> RawProg {
+    let mut rng = Rng::new(seed.wrapping_mul(0x1_0000_01B3).wrapping_add(idx).wrapping_add(0xC10));
+    let mode = match rng.below(20) {
+        0..=4 => Mode::General,
+        5..=8 => Mode::Chain,
+        9..=12 => Mode::Forward,
+        13..=15 => Mode::Prologue,
+        _ => Mode::Memory,
+    };
+    let with_caller = rng.chance(1, 3);
+    let f = {
+        let mut g = FnGen { rng: &mut rng, mode, nblocks: 0, first_target: 0, chain_conds: vec![] };
+        g.gen_function()
+    };
+    let mut subs = vec![f, helper_sub(HELPER_RET, "9000", true), helper_sub(HELPER_NORET, "9100", false)];
+    if with_caller {
+        // a function that calls f, so that f's entry block has a caller edge in the CFG
+        let addr = "8000";
+        let call = Term {
+            tid: mk_tid("instr_8000_j0", addr),
+            term: Jmp::Call { target: mk_tid("sub_1000", "1000"), return_: Some(mk_tid("blk_8010", "8010")) },
+        };
+        let ret = Term { tid: mk_tid("instr_8010_j0", "8010"), term: Jmp::Return(var(&reg("RBX", 8))) };
+        subs.push(Term {
+            tid: mk_tid("sub_8000", addr),
+            term: Sub {
+                name: "caller".to_string(),
+                blocks: vec![
+                    Term { tid: mk_tid("blk_8000", addr), term: Blk { defs: vec![], jmps: vec![call], indirect_jmp_targets: vec![] } },
+                    Term { tid: mk_tid("blk_8010", "8010"), term: Blk { defs: vec![], jmps: vec![ret], indirect_jmp_targets: vec![] } },
+                ],
+                calling_convention: None,
+            },
+        });
+    }
+    let externs = vec![
+        mk_extern("ext_fn", "a000", vec![Arg::from_var(reg("RDI", 8), None)], false),
+        mk_extern("exit", "a100", vec![Arg::from_var(reg("RDI", 8), None)], true),
+    ];
+    RawProg { subs, externs }
+}
+
+/// Six initial register files: boundary-biased values, several registers equal / 1 apart / 2 apart,
+/// flags in {0,1}, SP aligned to 4096.
+pub fn gen_inits(rng: &mut Rng, count: usize) -> Vec<Value> {
+    let mut out = Vec::new();
+    for _ in 0..count {
+        let base = match rng.below(4) {
+            0 => 0u64,
+            1 => u64::MAX - 1,
+            2 => 0x7fff_ffff_ffff_fffe,
+            _ => rng.next(),
+        };
+        let mut regs = Vec::new();
+        for r in GPRS {
+            let v = match rng.below(12) {
+                0 => 0,
+                1 => 1,
+                2 => u64::MAX,
+                3 => 0x8000_0000_0000_0000,
+                4 => base,
+                5 => base.wrapping_add(1),
+                6 => base.wrapping_add(2),
+                7 => base.wrapping_sub(1),
+                8 => rng.below(300),
+                9 => 0x60_0000 + 8 * rng.below(4),
+                _ => rng.next(),
+            };
+            regs.push(json!({"n": r, "v": bv(&bv_u64(v, 8))}));
+        }
+        let sp = 0x7ffd_0000_0000u64 + 4096 * (1 + rng.below(1 << 16));
+        regs.push(json!({"n": SP, "v": bv(&bv_u64(sp, 8))}));
+        for f in FLAGS {
+            regs.push(json!({"n": f, "v": [rng.below(2)]}));
+        }
+        out.push(Value::Array(regs));
+    }
+    out
+}
+
+// ------------------------------------------------------------------------------------------------
+// projection + syntactic feature tags
+// ------------------------------------------------------------------------------------------------
+fn sub_json(s: &Term<Sub>) -> Value {
+    let mut v = irenc::sub(s);
+    // block address as a bit vector (pointer size), used by IR.tla to resolve indirect jumps
+    if let Some(blocks) = v["blocks"].as_array_mut() {
+        for (b, blk) in blocks.iter_mut().zip(s.term.blocks.iter()) {
+            let abv = u64::from_str_radix(&blk.tid.address, 16).map(|a| bv(&bv_u64(a, 8))).unwrap_or(json!([]));
+            b["abv"] = abv;
+        }
+    }
+    v
+}
+
+fn exprs_of(s: &Term<Sub>) -> Vec<&Expression> {
+    let mut v = Vec::new();
+    for b in &s.term.blocks {
+        for d in &b.term.defs {
+            match &d.term {
+                Def::Assign { value, .. } => v.push(value),
+                Def::Load { address, .. } => v.push(address),
+                Def::Store { address, value } => {
+                    v.push(address);
+                    v.push(value)
+                }
+            }
+        }
+        for j in &b.term.jmps {
+            match &j.term {
+                Jmp::BranchInd(e) | Jmp::CBranch { condition: e, .. } | Jmp::CallInd { target: e, .. } | Jmp::Return(e) => v.push(e),
+                _ => (),
+            }
+        }
+    }
+    v
+}
+fn any_subexpr(e: &Expression, p: &dyn Fn(&Expression) -> bool) -> bool {
+    if p(e) {
+        return true;
+    }
+    match e {
+        Expression::BinOp { lhs, rhs, .. } => any_subexpr(lhs, p) || any_subexpr(rhs, p),
+        Expression::UnOp { arg, .. } | Expression::Cast { arg, .. } | Expression::Subpiece { arg, .. } => any_subexpr(arg, p),
+        _ => false,
+    }
+}
+fn is_one(e: &Expression) -> bool {
+    matches!(e, Expression::Const(c) if c.is_one())
+}
+/// `x ==/!= 1` where x is a subtraction or a variable (that propagation may replace by one), in a
+/// function that contains a subtraction: the syntactic precondition of the `(x-y)==1` rewrite.
+fn feat_eq1(s: &Term<Sub>) -> bool {
+    let es = exprs_of(s);
+    let has_sub = es.iter().any(|e| any_subexpr(e, &|x| matches!(x, Expression::BinOp { op: BinOpType::IntSub, .. })));
+    let shape = |x: &Expression| -> bool {
+        if let Expression::BinOp { op: BinOpType::IntEqual | BinOpType::IntNotEqual, lhs, rhs } = x {
+            let other_ok = |o: &Expression| matches!(o, Expression::Var(_) | Expression::BinOp { op: BinOpType::IntSub, .. });
+            (is_one(lhs) && other_ok(rhs)) || (is_one(rhs) && other_ok(lhs))
+        } else {
+            false
+        }
+    };
+    has_sub && es.iter().any(|e| any_subexpr(e, &shape))
+}
+/// some variable is the target of a `Load` and also of an `Assign` whose value does not mention it
+fn feat_loadredef(s: &Term<Sub>) -> bool {
+    let mut loaded = std::collections::HashSet::new();
+    let mut assigned = std::collections::HashSet::new();
+    for b in &s.term.blocks {
+        for d in &b.term.defs {
+            match &d.term {
+                Def::Load { var, .. } => {
+                    loaded.insert(var.clone());
+                }
+                Def::Assign { var, value } if !value.input_vars().contains(&var) => {
+                    assigned.insert(var.clone());
+                }
+                _ => (),
+            }
+        }
+    }
+    loaded.intersection(&assigned).next().is_some()
+}
+
+fn find_fn(p: &Project) -> &Term<Sub> {
+    &p.program.term.subs[&mk_tid("sub_1000", "1000")]
+}
+
+/// One case event for the pair (before, after).
+fn case_event(pass: &str, idx: u64, before: &Project, after: &Project, inits: &[Value], seed: u64, raw_file: &str, panic: &str) -> Value {
+    let (f1, f2) = (find_fn(before), find_fn(after));
+    let e1 = f1.term.blocks.first().map(|b| b.tid.to_string()).unwrap_or_default();
+    let e2 = f2.term.blocks.first().map(|b| b.tid.to_string()).unwrap_or_default();
+    json!({"ev": "case", "pass": pass, "fn": idx, "p1": sub_json(f1), "p2": sub_json(f2),
+           "sp": irenc::var(&before.stack_pointer_register),
+           "physregs": before.register_set.iter().map(irenc::var).collect::<Vec<_>>(),
+           "le": true, "seed": seed % 60000, "inits": inits, "panic": panic,
+           "f_eq1": feat_eq1(f1), "f_loadredef": feat_loadredef(f1), "f_entry_changed": e1 != e2,
+           "raw_file": raw_file})
+}
+
+/// Run the real passes on a raw project and build the case events (one per pass that changed f, plus
+/// the whole pipeline).  Returns (events, number of unchanged pairs).
+pub fn cases_of(raw: &Project, idx: u64, inits: &[Value], seed: u64, raw_file: &str, only: Option<&str>) -> (Vec<Value>, u64) {
+    let keep_unchanged = only.is_some(); // replay: always re-emit the requested pair
+    let mut p1 = raw.clone();
+    let _ = p1.normalize_basic();
+    let mut events = Vec::new();
+    let mut unchanged = 0;
+    let mut cur = p1.clone();
+    let run = |pass: &str, before: &Project| -> (Project, String) {
+        let mut after = before.clone();
+        let r = catch(std::panic::AssertUnwindSafe(|| {
+            let mut q = before.clone();
+            apply_pass(&mut q, pass);
+            q
+        }));
+        let mut panic = String::new();
+        match r {
+            Ok(q) => after = q,
+            Err(m) => panic = if m.is_empty() { "panic".to_string() } else { m },
+        }
+        (after, panic)
+    };
+    for pass in PASSES {
+        let (after, panic) = run(pass, &cur);
+        if only.map_or(true, |o| o == pass) {
+            if keep_unchanged || find_fn(&cur) != find_fn(&after) || !panic.is_empty() {
+                events.push(case_event(pass, idx, &cur, &after, inits, seed, raw_file, &panic));
+            } else {
+                unchanged += 1;
+            }
+        }
+        cur = after;
+    }
+    if only.map_or(true, |o| o == "full") {
+        let (after, panic) = run("full", &p1);
+        if keep_unchanged || find_fn(&p1) != find_fn(&after) || !panic.is_empty() {
+            events.push(case_event("full", idx, &p1, &after, inits, seed, raw_file, &panic));
+        } else {
+            unchanged += 1;
+        }
+    }
+    (events, unchanged)
+}
+
+pub fn gen(out: &mut Out, _sub: &str) {
+    let nfun = out.size(120, 600);
+    let seed = out.seed;
+    let rawdir = format!("{}/raw", out_dir(out));
+    std::fs::create_dir_all(&rawdir).unwrap();
+    let mut unchanged = 0u64;
+    let mut per_pass = serde_json::Map::new();
+    for idx in 0..nfun {
+        let raw = match catch(|| gen_project(seed, idx)) {
+            Ok(p) => p,
+            Err(m) => {
+                eprintln!("generator panic at function {}: {}", idx, m);
+                std::process::exit(2)
+            }
+        };
+        let raw_file = format!("{}/{}.json", rawdir, idx);
+        std::fs::write(&raw_file, serde_json::to_string(&raw).unwrap()).unwrap();
+        let mut rng = Rng::new(seed.wrapping_mul(31).wrapping_add(idx).wrapping_add(0x1A17));
+        let inits = gen_inits(&mut rng, 6);
+        let (events, u) = cases_of(&raw.project(), idx, &inits, seed.wrapping_add(idx), &raw_file, None);
+        unchanged += u;
+        for ev in events {
+            let pass = ev["pass"].as_str().unwrap().to_string();
+            let c = per_pass.get(&pass).and_then(|x| x.as_u64()).unwrap_or(0);
+            per_pass.insert(pass, json!(c + 1));
+            out.emit(vec![ev], true);
+        }
+    }
+    out.extra.insert("functions".into(), json!(nfun));
+    out.extra.insert("inits_per_function".into(), json!(6));
+    out.extra.insert("unchanged_pairs_skipped".into(), json!(unchanged));
+    out.extra.insert("pairs_per_pass".into(), Value::Object(per_pass));
+}
+
+fn out_dir(out: &Out) -> String {
+    out.dir().to_string()
+}
+
+/// Re-execute the real passes on the recorded raw project (`raw_serde`, embedded in the replay file by
+/// the driver; falls back to the side file `raw_file`).
+pub fn replay(run: &[Value], _sub: &str) -> Vec<Value> {
+    let mut out = Vec::new();
+    for ev in run {
+        let text = match ev.get("raw_serde").and_then(|x| x.as_str()) {
+            Some(s) => s.to_string(),
+            None => std::fs::read_to_string(ev["raw_file"].as_str().unwrap_or("")).unwrap_or_default(),
+        };
+        let raw: Project = match serde_json::from_str::<RawProg>(&text) {
+            Ok(p) => p.project(),
+            Err(_) => continue,
+        };
+        let inits: Vec<Value> = ev["inits"].as_array().cloned().unwrap_or_default();
+        let idx = ev["fn"].as_u64().unwrap_or(0);
+        let seed = ev["seed"].as_u64().unwrap_or(0);
+        let pass = ev["pass"].as_str().unwrap_or("full");
+        let (mut events, _) = cases_of(&raw, idx, &inits, seed, ev["raw_file"].as_str().unwrap_or(""), Some(pass));
+        for e in events.iter_mut() {
+            e["raw_serde"] = json!(text);
+        }
+        out.append(&mut events);
+    }
+    out
 }
